@@ -231,4 +231,32 @@ theorem C18_wiring2 :
     Sso.Generated.skel_proxy_newTimeoutHandler =
       ["call:Sprintf", "call:TimeoutHandler", "return"] := by decide
 
+/-- Tie (T1): the decoder tags of sso-proxy's configuration structs (`internal/proxy/configuration.go`) — the names under which the environment and the files reach each setting this
+property depends on (TTLs, cookie flags, client credentials, root domains, allow rules …). A tag that changes re-routes or drops a
+setting without any code noticing. -/
+theorem C18_tags_proxyConfigTags : Sso.Generated.proxyConfigTags =
+    ["Configuration.ServerConfig mapstructure:\"server\"", "Configuration.ProviderConfig mapstructure:\"provider\"", "Configuration.ClientConfig mapstructure:\"client\"", "Configuration.SessionConfig mapstructure:\"session\"", "Configuration.UpstreamConfigs mapstructure:\"upstream\"", "Configuration.MetricsConfig mapstructure:\"metrics\"", "Configuration.LoggingConfig mapstructure:\"logging\"", "Configuration.RequestSignerConfig mapstructure:\"requestsigner\"", "ProviderConfig.ProviderType mapstructure:\"type\"", "ProviderConfig.Scope mapstructure:\"scope\"", "ProviderConfig.ProviderURLConfig mapstructure:\"url\"", "ProviderURLConfig.External mapstructure:\"external\"", "ProviderURLConfig.Internal mapstructure:\"internal\"", "SessionConfig.CookieConfig mapstructure:\"cookie\"", "SessionConfig.TTLConfig mapstructure:\"ttl\"", "CookieConfig.Name mapstructure:\"name\"", "CookieConfig.Secret mapstructure:\"secret\"", "CookieConfig.Expire mapstructure:\"expire\"", "CookieConfig.Domain mapstructure:\"domain\"", "CookieConfig.Secure mapstructure:\"secure\"", "CookieConfig.HTTPOnly mapstructure:\"httponly\"", "TTLConfig.Lifetime mapstructure:\"lifetime\"", "TTLConfig.Valid mapstructure:\"valid\"", "TTLConfig.GracePeriod mapstructre:\"grace_period\"", "ClientConfig.ID mapstructure:\"id\"", "ClientConfig.Secret mapstructure:\"secret\"", "ServerConfig.Port mapstructure:\"port\"", "ServerConfig.TimeoutConfig mapstructure:\"timeout\"", "TimeoutConfig.Write mapstructure:\"write\"", "TimeoutConfig.Read mapstructure:\"read\"", "TimeoutConfig.Shutdown mapstructure:\"shutdown\"", "MetricsConfig.StatsdConfig mapstructure:\"statsd\"", "StatsdConfig.Port mapstructure:\"port\"", "StatsdConfig.Host mapstructure:\"host\"", "LoggingConfig.Enable mapstructure:\"enable\"", "UpstreamConfigs.DefaultConfig mapstructure:\"default\"", "UpstreamConfigs.ConfigsFile mapstructure:\"configfile\"", "UpstreamConfigs.testTemplateVars ", "UpstreamConfigs.upstreamConfigs ", "UpstreamConfigs.Cluster mapstructure:\"cluster\"", "UpstreamConfigs.Scheme mapstructure:\"scheme\"", "DefaultConfig.EmailConfig mapstructure:\"email\"", "DefaultConfig.AllowedGroups mapstructure:\"groups\"", "DefaultConfig.ProviderSlug mapstructure:\"provider\"", "DefaultConfig.Timeout mapstructure:\"timeout\"", "DefaultConfig.ResetDeadline mapstructure:\"resetdeadline\"", "EmailConfig.AllowedDomains mapstructure:\"domains\"", "EmailConfig.AllowedAddresses mapstructure:\"addresses\"", "RequestSignerConfig.Key mapstructure:\"key\""] := by decide
+
+/-- Tie (T1): the decoder tags of sso-auth's configuration structs (`internal/auth/configuration.go`) — the names under which the environment and the files reach each setting this
+property depends on (TTLs, cookie flags, client credentials, root domains, allow rules …). A tag that changes re-routes or drops a
+setting without any code noticing. -/
+theorem C18_tags_authConfigTags : Sso.Generated.authConfigTags =
+    ["Configuration.ProviderConfigs mapstructure:\"provider\"", "Configuration.ClientConfigs mapstructure:\"client\"", "Configuration.GroupCacheConfig mapstructure:\"groupcache\"", "Configuration.AuthorizeConfig mapstructure:\"authorize\"", "Configuration.SessionConfig mapstructure:\"session\"", "Configuration.ServerConfig mapstructure:\"server\"", "Configuration.MetricsConfig mapstructure:\"metrics\"", "Configuration.LoggingConfig mapstructure:\"logging\"", "ProviderConfig.ProviderType mapstructure:\"type\"", "ProviderConfig.ProviderSlug mapstructure:\"slug\"", "ProviderConfig.ClientConfig mapstructure:\"client\"", "ProviderConfig.Scope mapstructure:\"scope\"", "ProviderConfig.GoogleProviderConfig mapstructure:\"google\"", "ProviderConfig.OktaProviderConfig mapstructure:\"okta\"", "ProviderConfig.AmazonCognitoProviderConfig mapstructure:\"cognito\"", "ProviderConfig.GroupCacheConfig mapstructure:\"groupcache\"", "GoogleProviderConfig.Credentials mapstructure:\"credentials\"", "GoogleProviderConfig.Impersonate mapstructure:\"impersonate\"", "GoogleProviderConfig.ApprovalPrompt mapstructure:\"prompt\"", "GoogleProviderConfig.HostedDomain mapstructure:\"domain\"", "OktaProviderConfig.ServerID mapstructure:\"server\"", "OktaProviderConfig.OrgURL mapstructure:\"url\"", "AmazonCognitoProviderConfig.OrgURL mapstructure:\"url\"", "AmazonCognitoProviderConfig.UserPoolID mapstructure:\"id\"", "AmazonCognitoProviderConfig.Region mapstructure:\"region\"", "AmazonCognitoProviderConfig.Credentials mapstructure:\"credentials\"", "CognitoCredentials.ID mapstructure:\"id\"", "CognitoCredentials.Secret mapstructure:\"secret\"", "GroupCacheConfig.CacheIntervalConfig mapstructure:\"interval\"", "CacheIntervalConfig.Provider mapstructure:\"provider\"", "CacheIntervalConfig.Refresh mapstructure:\"refresh\"", "SessionConfig.CookieConfig mapstructure:\"cookie\"", "SessionConfig.SessionLifetimeTTL mapstructure:\"lifetime\"", "SessionConfig.Key mapstructure:\"key\"", "CookieConfig.Name mapstructure:\"name\"", "CookieConfig.Secret mapstructure:\"secret\"", "CookieConfig.Domain mapstructure:\"domain\"", "CookieConfig.Expire mapstructure:\"expire\"", "CookieConfig.Secure mapstructure:\"secure\"", "CookieConfig.HTTPOnly mapstructure:\"httponly\"", "ServerConfig.Host mapstructure:\"host\"", "ServerConfig.Port mapstructure:\"port\"", "ServerConfig.Scheme mapstructure:\"scheme\"", "ServerConfig.TimeoutConfig mapstructure:\"timeout\"", "TimeoutConfig.Write mapstructure:\"write\"", "TimeoutConfig.Read mapstructure:\"read\"", "TimeoutConfig.Request mapstructure:\"request\"", "TimeoutConfig.Shutdown mapstructure:\"shutdown\"", "ClientConfig.ID mapstructure:\"id\"", "ClientConfig.Secret mapstructure:\"secret\"", "AuthorizeConfig.EmailConfig mapstructure:\"email\"", "AuthorizeConfig.ProxyConfig mapstructure:\"proxy\"", "EmailConfig.Domains mapstructure:\"domains\"", "EmailConfig.Addresses mapstructure:\"addresses\"", "ProxyConfig.Domains mapstructure:\"domains\"", "MetricsConfig.StatsdConfig mapstructure:\"statsd\"", "LoggingConfig.Enable mapstructure:\"enable\"", "LoggingConfig.Level mapstructure:\"level\"", "StatsdConfig.Port mapstructure:\"port\"", "StatsdConfig.Host mapstructure:\"host\""] := by decide
+
+/-- Tie (T1): `cmd/sso-proxy/main.go`: load the configuration from the environment, validate it, `proxy.New`, wrap in the logging handler, serve — the sequence the harness reproduces when it builds the service in-process (configuration validated before
+anything is served; the handler wrapping). -/
+theorem C18_skeleton_cmd_proxy_main : Sso.Generated.skel_cmd_proxy_main =
+    ["call:LoadConfig", "if{", "call:Exit", "}", "call:Validate", "if{", "call:Exit", "}", "call:NewStatsdClient", "if{", "call:Exit", "}", "go{", "call:New", "call:Run", "}", "call:SetUpstreamConfigs", "if{", "call:Exit", "}", "call:New", "if{", "call:Exit", "}", "call:NewLoggingHandler", "call:Sprintf", "call:Run", "if{", "}"] := by decide
+
+/-- Tie (T1): `cmd/sso-auth/main.go`: load the configuration from the environment, validate it, `NewAuthenticatorMux`, wrap in the timeout and logging handlers, serve — the sequence the harness reproduces when it builds the service in-process (configuration validated before
+anything is served; the handler wrapping). -/
+theorem C18_skeleton_cmd_auth_main : Sso.Generated.skel_cmd_auth_main =
+    ["call:LoadConfig", "if{", "call:Exit", "}", "call:Validate", "if{", "call:Exit", "}", "call:NewStatsdClient", "if{", "call:Exit", "}", "call:NewAuthenticatorMux", "if{", "call:Exit", "}", "defer:Stop", "call:TimeoutHandler", "call:Sprintf", "call:NewLoggingHandler", "call:Run", "if{", "}"] := by decide
+
+/-- Tie (T1), third wave: the constructors and option functions that hand configured values to the components this property
+speaks about (proxy_SetCookieStore). -/
+theorem C18_wiring3 :
+    Sso.Generated.skel_proxy_SetCookieStore =
+      ["func{", "call:DecodeString", "if{", "return", "}", "call:CreateMiscreantCookieCipher", "func{", "store:c.CookieDomain", "store:c.CookieHTTPOnly", "store:c.CookieExpire", "store:c.CookieSecure", "return", "}", "call:NewCookieStore", "if{", "return", "}", "store:op.csrfStore", "store:op.sessionStore", "store:op.cookieCipher", "return", "}", "return"] := by decide
+
 end Sso.Harden
